@@ -63,7 +63,7 @@ def gen_case(rng, tier, ks=None):
             stream.append(("delete", k, tr))
         else:
             stream.append(("update", k, rng.choice([b"v", b"w" * 40, b"", d, b"\x01"]), tr))
-    if rng.random() < 0.35:
+    if ks <= 2 and rng.random() < 0.35:      # (small key sizes only: each update costs 8 * key_size hashes in the model)
         # the same write repeated around changes to a NEIGHBOUR: key A (differs from the tracked key at bit i) is written with the
         # same value several times while key B (inside the sibling subtree the proof takes from A's updates: equal to A up to a
         # later bit j) really changes in between - every returned hash list must be current
